@@ -85,7 +85,10 @@ def delta(e, g):
         ("edge-spaces-trimmed", lambda: e.strip(b" ")),
         ("edge-whitespace-trimmed", lambda: _ustrip(e)),
         ("leading-newlines-dropped", lambda: e.lstrip(b"\r\n") if e[:1] in (b"\r", b"\n") else None),
+        ("trailing-newlines-dropped", lambda: e.rstrip(b"\r\n") if e[-1:] in (b"\r", b"\n") else None),
         ("bom-stripped", lambda: e[3:] if e.startswith(C.BOM) else None),
+        ("bom-kept", lambda: C.BOM + e),
+        ("newline-only->positional", lambda: g if (e and e.strip(b"\r\n") == b"" and g.isdigit()) else None),
         ("pipe-escape-not-undone", lambda: e.replace(b"|", b"\\|")),
         ("pipe-escape-consumed", lambda: e.replace(b"\\|", b"|") if b"\\|" in e else None),
         ("quotes-kept", lambda: b'"' + e.replace(b'"', b'""') + b'"'),
@@ -1197,17 +1200,22 @@ def opt_case(case):
     rng = random.Random(case["seed"])
     fmt = case.get("fmt", "csv")
     v = F.variant_by_name({"csv": "csv", "tsv": "tsv", "csvlite": "csvlite", "dkvp": "dkvp", "nidx": "nidx", "xtab": "xtab",
-                           "pprint": "pprint", "json": "json"}[fmt])
+                           "pprint": "pprint", "json": "json", "tsvlite": "tsvlite", "markdown": "markdown", "usv": "usv",
+                           "dkvpx": "dkvpx"}[fmt])
     res = case_result(_h("opt", kind, fmt, case["seed"]), True, evals=0)
     bump(res, "opt:" + kind + ":" + fmt)
     iflag = {"csv": "--icsv", "tsv": "--itsv", "csvlite": "--icsvlite", "dkvp": "--idkvp", "nidx": "--inidx", "xtab": "--ixtab",
-             "pprint": "--ipprint", "json": "--ijson"}[fmt]
+             "pprint": "--ipprint", "json": "--ijson", "tsvlite": "--itsvlite", "markdown": "--imd", "usv": "--iusv", "dkvpx": "-i"}[fmt]      # (dkvpx has no --iF spelling: its users pass ["-i", "dkvpx"])
+    # field counts on both sides of the 12-field threshold at which records switch to a key index
+    wide = lambda small: rng.choice(small + [12, 13, 20]) if rng.random() < 0.4 else rng.choice(small)
 
     def write_rows(rows):
         if fmt == "csv":
             return C.write_csv(rows, {"quote": rng.choice(["minimal", "all", "random"]), "rng": rng})
         if fmt == "tsv":
             return C.write_tsv(rows)
+        if fmt == "tsvlite":
+            return b"".join(b"\t".join(r) + b"\n" for r in rows)
         return b"".join(b",".join(r) + b"\n" for r in rows)
 
     def sigd(d, **kw):
@@ -1216,12 +1224,12 @@ def opt_case(case):
         return sg
 
     if kind == "ragged":
-        n = rng.randint(2, 6)
+        n = wide([2, 3, 4, 5, 6])
         keys = _uniq_keys(rng, v, n, _not_int_like)
         rows = [keys]
         exp_fill, exp_trunc = [], []
         for _ in range(rng.randint(1, 8)):
-            m = rng.choice([1, n - 1, n, n, n + 1, n + 3])
+            m = rng.choice([1, n - 1, n, n, n + 1, n + 3] + ([11, 12, 13] if n >= 12 else []))
             m = max(1, m)
             cells = _cells(rng, v, m)
             if m == 1 and cells[0] == b"":
@@ -1238,19 +1246,21 @@ def opt_case(case):
         flag = rng.choice(["--allow-ragged-csv-input", "--ragged"] + (["--allow-ragged-tsv-input"] if fmt == "tsv" else []))
         got, det, _ = _read_records(res, v, [iflag, flag] + READBACK + ["cat"], text, f"{fmt} ragged input")
         if got is not None:
-            # short rows: the flag help says 'fill remaining keys with empty string', the recorded example in
-            # record-heterogeneity.md shows the keys simply absent: either documented outcome is accepted per record
-            ok = len(got) == len(exp_fill) and all(g == a or g == b for g, a, b in zip(got, exp_fill, exp_trunc))
-            if not ok:
-                if len(got) == len(exp_fill):
-                    exp_fill = [b if (g == b or (len(g) == len(b) != len(a))) else a for g, a, b in zip(got, exp_fill, exp_trunc)]
-                for d in diff_records(exp_fill, got)[:2]:
-                    add_violation(res, sigd(d), f"{fmt} {flag}: records differ from the documented ragged rule: {d['where']} {d['delta']} expected {d['exp']!r} got {d['got']!r}",
-                                  dict(det, expected_fill=_jsonable_recs(exp_fill), got=_jsonable_recs(got)))
-            else:
+            # short rows: the flag help says 'fill remaining keys with empty string'; the recorded execution in
+            # record-heterogeneity.md (CSV) shows the keys simply absent. One outcome per format, for every short row of the run:
+            # CSV as recorded on that page, CSV-lite / TSV / TSV-lite as the flag help says (the same pin as C05-b)
+            exp = exp_trunc if fmt == "csv" else exp_fill
+            ds = diff_records(exp, got)
+            for d in ds[:2]:
+                add_violation(res, sigd(d), f"{fmt} {flag}: records differ from the documented ragged rule ({'keys absent' if fmt == 'csv' else 'fill with empty'} for short rows, "
+                              f"positional keys for the excess of long rows): {d['where']} {d['delta']} expected {d['exp']!r} got {d['got']!r}",
+                              dict(det, expected=_jsonable_recs(exp), got=_jsonable_recs(got)))
+            if not ds:
                 bump(res, "opt_held")
+                if n >= 12:
+                    bump(res, "opt_held_12+_fields")
     elif kind == "implicit-header":
-        n = rng.randint(1, 6)
+        n = wide([1, 2, 3, 4, 5, 6])
         rows = [_cells(rng, v, n) for _ in range(rng.randint(1, 6))]
         rows = [r if not (n == 1 and r[0] == b"") else [b"e"] for r in rows]
         if rows[0][0].startswith(C.BOM):
@@ -1316,7 +1326,14 @@ def opt_case(case):
             keys = [k for k, _ in recs[0]]
             recs = [list(zip(keys, [val for _, val in r][:len(keys)])) for r in recs if len(r) == len(keys)]
         mode, prefix = case["mode"], case["prefix"]
-        body = vv.pywrite(recs)
+        if fmt == "markdown" and any(b"|" in c for r in recs for kv in r for c in kv):
+            res["skipped"] += 1        # C01-F8 (pipes in markdown cells) is reported by rt
+            return res
+        if fmt == "json":
+            body = C.write_json([C.jobj_from_record(r_) for r_ in recs], {"shape": "lines"})
+            body = body if isinstance(body, bytes) else body.encode("utf-8")
+        else:
+            body = vv.pywrite(recs)
         if fmt == "csv":
             body = C.write_csv(C.records_to_rows(recs), {"quote": "minimal"})
             if any(b"\n" in c or b"\r" in c for r in recs for kv in r for c in kv):
@@ -1369,6 +1386,103 @@ def opt_case(case):
                                   f"{fmt} {flags[0]}: comment lines printed {passed!r} != comment lines in input {comments!r}", det)
                 elif not ds:
                     bump(res, "opt_held")
+    elif kind == "bom":
+        # a UTF-8 byte-order mark at the head of a file is an encoding signature, not data (release notes 5.2.0: 'CSV UTF BOM strip'):
+        # the file reads as the same file without it -- with a header line, with an implicit header (the BOM must not land in the
+        # first data cell), under the other reader options, and at the head of EVERY file of a multi-file run
+        mode = case["mode"]
+        implicit = mode.startswith("implicit")
+        flags = list(case.get("flags") or [])
+        fs = b";" if "--ifs" in flags else {"tsv": b"\t", "tsvlite": b"\t", "usv": "\u241f".encode()}.get(fmt, b",")
+        gname = {"csv": "csv-fs-semicolon" if fs == b";" else "csv"}.get(fmt, fmt)
+        if implicit:
+            gname = {"csv": "csv-headerless", "tsv": "tsv-headerless", "csvlite": "csvlite-headerless", "tsvlite": "tsvlite-headerless"}[fmt]
+        gv = F.variant_by_name(gname)
+
+        def text_of(recs):
+            if fmt == "csv":
+                return C.write_csv(C.records_to_rows(recs, header=not implicit), {"quote": rng.choice(["minimal", "all", "random"]), "rng": rng, "fs": fs})
+            if fmt == "tsv":
+                return C.write_tsv(C.records_to_rows(recs, header=not implicit))
+            if fmt in ("csvlite", "tsvlite", "usv"):
+                return C.write_csvlite(recs, fs=fs, rs="\u241e".encode() if fmt == "usv" else b"\n", header=not implicit)
+            if fmt == "dkvpx":
+                return C.write_dkvpx(recs)
+            return {"pprint": C.write_pprint, "markdown": C.write_markdown}[fmt](recs)
+        lists = []
+        for _ in range(2 if mode.endswith("2files") else 1):
+            recs = None
+            while recs is None or (fmt == "dkvpx" and any(b"\n" in c or b"\r" in c for r_ in recs for kv in r_ for c in kv)) \
+                    or (fmt == "tsv" and any(F.classes_of(k) & {"backslash", "tab", "lf", "cr", "crlf"} for r_ in recs for k, _ in r_)) \
+                    or ("--skip-comments" in flags and any(c.startswith(b"#") or b"\n#" in c or b"\r#" in c for r_ in recs for kv in r_ for c in kv)):
+                # (newlines in DKVPX cells: C01-F7, escapes in TSV names: C01-F1, both reported by rt; comment-looking lines are not data)
+                recs, _i = F.gen_records(rng, gv, allow_bytes=False, nrec=rng.randint(1, 4), nfld=rng.choice([1, 2, 3, 5, 12]))
+            lists.append(recs)
+        if fmt == "markdown" and any(b"|" in c for recs in lists for r in recs for kv in r for c in kv):
+            res["skipped"] += 1
+            return res
+        hflag = [rng.choice(["--implicit-csv-header", "--hi"])] if implicit else []
+        argv = (["-i", "dkvpx"] if fmt == "dkvpx" else [iflag]) + flags + hflag + READBACK + ["cat"]
+        exp = [r_ for recs in lists for r_ in recs]
+        if len(lists) == 1:
+            text = C.BOM + text_of(lists[0])
+            r = R.mlr(argv, stdin=text)
+            det = {"argv": argv, "stdin": text}
+        else:
+            files = {"a.dat": C.BOM + text_of(lists[0]), "b.dat": C.BOM + text_of(lists[1])}
+            argv = argv + ["a.dat", "b.dat"]
+            r = R.mlr(argv, files=files)
+            det = {"argv": argv, "files": files}
+        res["evals"] += 1
+        if _proc_ok(res, v, "opt-bom-fail", r, f"{fmt} reader on a file that begins with a BOM ({mode})", det, mode):
+            try:
+                got = mlr_json_to_records(r.stdout)
+            except C.CodecError as e:
+                got = None
+                add_violation(res, {"kind": "carrier", "format": fmt, "variant": v.name, "where": "json-output", "delta": "unparseable", "class": mode}, f"--ojson output not strict JSON: {e}", det)
+            if got is not None:
+                ds = diff_records(exp, got)
+                for d in ds[:2]:
+                    add_violation(res, sigd(d, mode=mode), f"{fmt} file beginning with a UTF-8 BOM ({mode}{' ' + ' '.join(flags) if flags else ''}) does not read as the same file without it: "
+                                  f"{d['where']} {d['delta']} expected {d['exp']!r} got {d['got']!r}", det)
+                if not ds:
+                    bump(res, "opt_held")
+    elif kind == "lazy-quotes-gen":
+        # flag help: 'Accepts quotes appearing in unquoted fields, and non-doubled quotes appearing in quoted fields.' Conforming
+        # rows with one cell per row spelled in one of the tolerated ways; everything else stays RFC 4180
+        word = lambda: b"".join(rng.choice([b"a", b"b", b"x1", b"7", b" ", b"q", b"Zz", b"'", b";"]) for _ in range(rng.randint(1, 4)))
+        n = rng.choice([1, 2, 3, 5, 12])
+        keys = [b"k%d" % i for i in range(n)]
+        rows, exp = [b",".join(keys)], []
+        for _ in range(rng.randint(1, 5)):
+            cells, vals = [], []
+            odd = rng.randrange(n)
+            for i in range(n):
+                a_, b_ = word().strip(b" ") or b"w", word()
+                how = rng.choice(["unquoted-inner", "unquoted-final", "quoted-lone-inner"]) if i == odd else rng.choice(["plain", "plain", "quoted-fs", "quoted-doubled"])
+                if how == "plain":
+                    cells.append(a_ + b_); vals.append(a_ + b_)
+                elif how == "quoted-fs":
+                    cells.append(b'"' + a_ + b"," + b_ + b'"'); vals.append(a_ + b"," + b_)
+                elif how == "quoted-doubled":
+                    cells.append(b'"' + a_ + b'""' + b_ + b'"'); vals.append(a_ + b'"' + b_)
+                elif how == "unquoted-inner":
+                    cells.append(a_ + b'"' + b_ + b"z"); vals.append(a_ + b'"' + b_ + b"z")
+                elif how == "unquoted-final":
+                    cells.append(a_ + b_ + b'"'); vals.append(a_ + b_ + b'"')
+                else:
+                    cells.append(b'"' + a_ + b'"' + b"z" + b_ + b'"'); vals.append(a_ + b'"' + b"z" + b_)
+                bump(res, "lazy:" + how)
+            rows.append(b",".join(cells))
+            exp.append(list(zip(keys, vals)))
+        text = b"\n".join(rows) + b"\n"
+        got, det, _ = _read_records(res, v, ["--icsv", "--lazy-quotes"] + READBACK + ["cat"], text, "csv --lazy-quotes")
+        if got is not None:
+            ds = diff_records(exp, got)
+            for d in ds[:2]:
+                add_violation(res, sigd(d), f"csv --lazy-quotes: {d['where']} {d['delta']} expected {d['exp']!r} got {d['got']!r}", det)
+            if not ds:
+                bump(res, "opt_held")
     elif kind == "reject":
         argv, why = case["argv"], case["why"]
         r = R.mlr(argv, stdin=case["stdin"])
@@ -1383,7 +1497,7 @@ def opt_case(case):
     elif kind == "unsparsify-writer":
         # file-formats.md: too few keys matching the header -> empty fields; too many keys matching the header up to
         # its length -> the extra fields are emitted (data line longer than the header); otherwise an error
-        n = rng.randint(2, 5)
+        n = wide([2, 3, 4, 5])
         keys = _uniq_keys(rng, v, n + 2, _not_int_like)
         hdr = keys[:n]
         recs = [list(zip(hdr, _cells(rng, v, n)))]
@@ -1433,14 +1547,33 @@ def opt_case(case):
                 else:
                     bump(res, "opt_held")
     elif kind == "dedupe":
-        n = rng.randint(2, 5)
-        base = _uniq_keys(rng, v, n, lambda c: b"_" not in c and _not_int_like(c))
-        hdr = [rng.choice(base) for _ in range(n + 1)]
-        cells = _cells(rng, v, n + 1, extra_ok=lambda c: c != b"")
+        n = wide([2, 3, 4, 5])
+        literal = bool(case.get("literal"))
+        key_ok = (lambda c: bool(re.fullmatch(rb"[A-Za-z][A-Za-z0-9]*", c))) if literal else (lambda c: b"_" not in c and _not_int_like(c))
+        if n < 12:
+            base = _uniq_keys(rng, v, n, key_ok)
+            hdr = [rng.choice(base) for _ in range(n + 1)]
+        else:
+            # distinct names with duplicates planted on both sides of field 12 (where the key index takes over)
+            hdr = _uniq_keys(rng, v, n + 1, key_ok)
+            for dst, src in ((n, rng.choice([0, 11, 12, n - 1])), (min(13, n), rng.choice([1, 12])), (rng.randrange(1, 12), 0)):
+                if rng.random() < 0.8 and dst != src and hdr[src] not in (hdr[dst], ):
+                    hdr[dst] = hdr[src]
+            if len(set(hdr)) == len(hdr):
+                hdr[n] = hdr[12]
+        if literal:
+            # a name that already looks like a renamed duplicate (a_2 next to a,a): the documentation does not say which
+            # name the collision gets, so only the invariants are required (below)
+            dup = next((k for k in hdr if hdr.count(k) > 1), hdr[0])
+            hdr[rng.choice([i for i in range(len(hdr)) if hdr[i] != dup] or [len(hdr) - 1])] = dup + b"_2"
+            if hdr.count(dup) < 2:
+                hdr.append(dup)
+        cells = _cells(rng, v, len(hdr), extra_ok=lambda c: c != b"")
+        cells = [(b"v" if literal else c) + b"%d" % i for i, c in enumerate(cells)]      # distinct values, so that order is observable
         if fmt in ("csv", "tsv"):
             text = write_rows([hdr, cells])
         elif fmt == "dkvp":
-            if any(b"," in x or b"=" in x or b"\n" in x for x in hdr + cells):
+            if any(b"," in x or b"=" in x or b"\n" in x or x.endswith(b"\r") for x in hdr + cells):
                 res["skipped"] += 1
                 return res
             text = C.write_dkvp([list(zip(hdr, cells))])
@@ -1451,7 +1584,7 @@ def opt_case(case):
             for k, c in zip(hdr, cells):
                 cnt[k] = cnt.get(k, 0) + 1
                 exp.append((k if cnt[k] == 1 else k + b"_" + str(cnt[k]).encode(), c))
-            if len({k for k, _ in exp}) != len(exp):
+            if len({k for k, _ in exp}) != len(exp) and not literal:
                 res["skipped"] += 1
                 return res
         else:
@@ -1464,12 +1597,32 @@ def opt_case(case):
                     exp.append((k, c))
         argv = [iflag] + (["--no-dedupe-field-names"] if nodedupe else []) + READBACK + ["cat"]
         got, det, _ = _read_records(res, v, argv, text, f"{fmt} duplicate field names")
-        if got is not None:
+        if got is not None and literal and not nodedupe:
+            g = got[0] if len(got) == 1 else []
+            names = [k for k, _ in g]
+            bad = None
+            if [c for _, c in g] != cells:
+                bad = "values-lost-or-reordered"
+            elif len(set(names)) != len(names):
+                bad = "names-not-distinct"
+            elif any(hdr.count(k) == 1 and not any(k == h + b"_%d" % j for h in hdr for j in range(2, len(hdr) + 1)) and names[i] != k for i, k in enumerate(hdr)):
+                bad = "unambiguous-name-renamed"
+            elif names[hdr.index(next(k for k in hdr if hdr.count(k) > 1))] != next(k for k in hdr if hdr.count(k) > 1):
+                bad = "first-occurrence-renamed"
+            if bad:
+                add_violation(res, {"kind": "opt-dedupe", "format": fmt, "variant": v.name, "where": "record", "delta": bad, "class": "literal-suffix-name", "nodedupe": False},
+                              f"{fmt} duplicate field names with a literal x_2 in the header {hdr!r}: {bad}: got names {names!r}", dict(det, header=hdr, got=_jsonable_recs(got)))
+            else:
+                bump(res, "opt_held")
+                bump(res, "opt_dedupe_literal_held")
+        elif got is not None:
             ds = diff_records([exp], got)
             for d in ds[:2]:
                 add_violation(res, sigd(d, nodedupe=nodedupe), f"{fmt} duplicate field names ({'--no-dedupe-field-names' if nodedupe else 'default'}): {d['where']} {d['delta']} expected {d['exp']!r} got {d['got']!r}", det)
             if not ds:
                 bump(res, "opt_held")
+                if len(hdr) >= 12:
+                    bump(res, "opt_held_12+_fields")
     elif kind == "regex-seps":
         mode = case["mode"]
         vv = F.variant_by_name("nidx")
@@ -1537,15 +1690,27 @@ def opt_cases(chk):
     cases = []
     n = 12 if q else 250
     sd = lambda *xs: f"{chk.seed}/opt/" + "/".join(str(x) for x in xs)
-    for fmt in ("csv", "tsv", "csvlite"):
+    for fmt in ("csv", "tsv", "csvlite", "tsvlite"):
         for i in range(n):
             cases.append({"kind": "ragged", "fmt": fmt, "seed": sd("ragged", fmt, i)})
             cases.append({"kind": "implicit-header", "fmt": fmt, "seed": sd("ih", fmt, i)})
     for i in range(5):
         cases.append({"kind": "lazy-quotes", "fmt": "csv", "idx": i, "seed": sd("lazy", i)})
+    for i in range(n if q else 120):
+        cases.append({"kind": "lazy-quotes-gen", "fmt": "csv", "seed": sd("lazygen", i)})
+    for fmt, modes in (("csv", ("header", "implicit", "header-2files", "implicit-2files")), ("csvlite", ("header", "implicit", "header-2files")),
+                       ("tsv", ("header", "implicit", "header-2files")), ("tsvlite", ("header", "implicit")), ("usv", ("header",)),
+                       ("dkvpx", ("header", "header-2files")), ("pprint", ("header",)), ("markdown", ("header",))):
+        for mode in modes:
+            for i in range(3 if q else 30):
+                cases.append({"kind": "bom", "fmt": fmt, "mode": mode, "seed": sd("bom", fmt, mode, i)})
+    for flags in (["--allow-ragged-csv-input"], ["--lazy-quotes"], ["--ifs", ";"], ["--skip-comments"]):
+        for mode in ("header", "implicit"):
+            for i in range(2 if q else 20):
+                cases.append({"kind": "bom", "fmt": "csv", "mode": mode, "flags": flags, "seed": sd("bomf", flags, mode, i)})
     for i in range(n * 2):
         cases.append({"kind": "trim-leading-space", "fmt": "csv", "seed": sd("trim", i)})
-    for fmt in ("csv", "tsv", "dkvp", "nidx", "xtab", "pprint", "csvlite"):
+    for fmt in ("csv", "tsv", "dkvp", "nidx", "xtab", "pprint", "csvlite", "tsvlite", "json", "markdown"):
         for mode in ("skip", "pass"):
             for prefix in (b"#", b"%"):
                 for i in range(3 if q else 40):
@@ -1568,6 +1733,8 @@ def opt_cases(chk):
         for nd in (False, True):
             for i in range(n):
                 cases.append({"kind": "dedupe", "fmt": fmt, "nodedupe": nd, "seed": sd("dd", fmt, nd, i)})
+        for i in range(n // 2):
+            cases.append({"kind": "dedupe", "fmt": fmt, "nodedupe": False, "literal": True, "seed": sd("ddlit", fmt, i)})
     for fmt in ("nidx", "dkvp"):
         for mode in ("repifs-space", "repifs-semicolon", "regex-spaces", "alias-spaces", "alias-tabs", "alias-whitespace", "regex-class"):
             for i in range(4 if q else 60):
@@ -1593,8 +1760,12 @@ def flat_cases(chk):
                 pi = (i * 7 + vi * 3 + chk.seed * 5) % npieces
                 po = (i + vi + chk.seed) % npos
                 focus = F.PIECES[pi][0] if i < per - 4 else None
-                cases.append({"variant": v.name, "seed": f"{chk.seed}/rt/{v.name}/{i}", "focus": focus,
-                              "position": F.POSITIONS[po] if focus else None, "nstyles": 3})
+                case = {"variant": v.name, "seed": f"{chk.seed}/rt/{v.name}/{i}", "focus": focus,
+                        "position": F.POSITIONS[po] if focus else None, "nstyles": 3}
+                if i % 5 == 4:
+                    # hostile cells (quoted LF, XTAB stanzas, csvlite schema changes) at a batch edge: every record / every second one
+                    case["batch"] = ["--records-per-batch", str(1 + (i // 5) % 2)]
+                cases.append(case)
     else:
         for v in vs:
             for pname, pb, pc in F.PIECES:
@@ -1602,7 +1773,10 @@ def flat_cases(chk):
                     cases.append({"variant": v.name, "seed": f"{chk.seed}/rtf/{v.name}/{pname}/{po}", "focus": pname,
                                   "position": po, "nstyles": 4})
             for i in range(160):
-                cases.append({"variant": v.name, "seed": f"{chk.seed}/rtr/{v.name}/{i}", "focus": None, "position": None})
+                case = {"variant": v.name, "seed": f"{chk.seed}/rtr/{v.name}/{i}", "focus": None, "position": None}
+                if i % 3 == 2:
+                    case["batch"] = ["--records-per-batch", str(1 + (i // 3) % 2)]
+                cases.append(case)
     return cases
 
 
@@ -1639,7 +1813,7 @@ OUT_OF_SCOPE = {
     "--no-implicit-csv-header": "documented as the default; only meaningful inside `join`",
     "--no-implicit-tsv-header": "documented as the default; only meaningful inside `join`",
 }
-OPT_FLAGS_USED = ["--allow-ragged-csv-input", "--ragged", "--allow-ragged-tsv-input", "--implicit-csv-header", "--headerless-csv-input",
+OPT_FLAGS_USED = ["--records-per-batch", "--allow-ragged-csv-input", "--ragged", "--allow-ragged-tsv-input", "--implicit-csv-header", "--headerless-csv-input",
                   "--hi", "--implicit-tsv-header", "--lazy-quotes", "--csv-trim-leading-space", "--skip-comments", "--pass-comments",
                   "--skip-comments-with", "--pass-comments-with", "--no-auto-unsparsify", "--ifs", "--repifs", "--ifs-regex",
                   "--ips-regex", "--ofs", "--ors", "--irs", "--ojsonl"]
@@ -1673,8 +1847,10 @@ def run(chk):
                 "cells concatenated from a 79-piece hostile alphabet restricted by the per-format domain predicate, one focus piece per case at "
                 "one of 8 positions (quick: 24 cases per variant sweeping piece x position; thorough: the full variant x piece x position product "
                 "+ 160 random cases per variant); json: typed/nested JSON records x 10 RFC-8259 input styles per JSON-family variant; "
-                "opts: reader/writer option models (ragged, implicit header, lazy quotes, trim-leading-space, comments, dedupe, regex/repeated "
-                "separators, documented rejections, CSV/TSV fill rule, --no-auto-unsparsify). Non-trivial = the record list contains at least one "
+                "opts: reader/writer option models (ragged, implicit header, lazy quotes fixed + generated, trim-leading-space, comments, dedupe, regex/repeated "
+                "separators, documented rejections, CSV/TSV fill rule, --no-auto-unsparsify, BOM x format x reader option x one/two files), field counts drawn from "
+                "{1..6, 12, 13, 20} so that both sides of the 12-field key-index threshold are reached; json also: 64 KiB strings and keys, a depth-64 document, "
+                "number tokens drawn from the whole RFC-8259 grammar; a share of the read-side runs uses --records-per-batch 1/2. Non-trivial = the record list contains at least one "
                 "cell that forces the writer off its fast path (separator/quote/backslash/newline/control/non-ASCII/invalid UTF-8/space/long) or is "
                 "heterogeneous; distinct = hash of (variant, record list)")
     flag_coverage(chk)
@@ -1710,8 +1886,23 @@ def run(chk):
         "markdown: no newline, no leading/trailing space in cells; a row consisting only of '---' cells is the header rule",
         "recutils: field names [A-Za-z_][A-Za-z0-9_]*; values do not begin with a newline and no line of a value ends in a backslash "
         "(both documented in file-formats.md); DCF: plain printable-ASCII tokens only (format is thinly documented)",
-        "JSON/YAML: valid UTF-8 without lone surrogates; unique keys per object; YAML numbers compared by value, JSON numbers by token",
-        "--allow-ragged-csv-input short rows: both documented outcomes (flag help: fill with empty; recorded example in record-heterogeneity.md: keys absent) are accepted",
+        "JSON/YAML: valid UTF-8 without lone surrogates; unique keys per object; numbers are compared by token in JSON AND YAML "
+        "(reference-main-data-types.md: 'Numbers retain their original string representation ... One exception: on JSON output' for text that is not a JSON number; "
+        "a YAML re-rendering that keeps the value is listed as C01-F18, one that changes the value has a different signature)",
+        "--allow-ragged-csv-input short rows: ONE outcome per format for every short row of a run - CSV: keys absent (the recorded execution in "
+        "record-heterogeneity.md), CSV-lite / TSV / TSV-lite: filled with empty (flag help); the same pin as C05-b",
+        "whole-input failures (a process that does not exit 0, text an independent reader rejects, a lost record, a text-only idempotence difference) carry in "
+        "their signature the classes of a 1-minimal set of cells without which the failure disappears (halving over records, then cell by cell, <= 48 extra runs), "
+        "and the comparisons are repeated on the list with exactly those cells made plain (depth <= 2)",
+        "BOM: 'a file that begins with the UTF-8 BOM reads as the same file without it' is required of the CSV/TSV family and of the readers that implement it "
+        "(CSV incl. implicit header / ragged / lazy quotes / custom IFS / comments, CSV-lite, TSV, TSV-lite, USV, DKVPX, PPRINT, markdown), for one file and for "
+        "every file of a two-file run; DKVP/NIDX/XTAB (BOM kept, nothing documented) and JSON (RFC 8259 lets a parser reject it) are not in this law",
+        "PPRINT --ofs is not a round-trip variant: the writer pads with spaces and puts OFS only between columns (regression case io-multi-character-ixs/0015 "
+        "pins 'a  @i @x'), so cells come back with trailing spaces by design; XTAB --ops/--ofs, NIDX/DKVP/CSV-lite/TSV-lite FS and RS are variants; DKVPX IRS cannot be "
+        "altered (diagnostic says so)",
+        "PPRINT --ho/--hi (headerless output / implicit header) is implemented but documented only for the CSV family: checked as a variant (exploration)",
+        "duplicate field names next to a literal x_2 (a,a,a_2): the documentation does not say which name the collision gets, so only the invariants are required "
+        "(all values kept in order, names distinct, names that cannot collide unchanged, first occurrence keeps its name)",
         "--csv-trim-leading-space: 'leading spaces' is read as any leading white space (cells starting with other white space are not generated)",
         "right-align-numeric variants: layout depends on inferred type, so idempotence is required from the second pass on",
     ]
